@@ -79,6 +79,8 @@ var HostileConstants = []string{
 	"Description\n(\ntext", "TYPE @a regex\n/ax\\", "# a ## b\nJSIGHT 0.3", "JSIGHT 0.3\nENUM\n[1]",
 	"MACRO @a\n(\nPASTE @b\n)\nMACRO @b\n(\nPASTE @a\n)\nPASTE @a",
 	"MACRO @a\n(\nPASTE @b\n)\nMACRO @b\n(\nPASTE @a\n)\n",
+	"JSIGHT 0.3\nGET /a\n  200\n    @dog |", "JSIGHT 0.3\nENUM @e\n[1] /* Request", "JSIGHT 0.3\nTYPE @a\n##", "JSIGHT 0.3\nENUM @e\n[1, /*/*",
+	"JSIGHT 0.3\nTYPE @a\n//", "JSIGHT 0.3\nGET /a\n  Query\n/*/*",
 	"INCLUDE", "INCLUDE \"\"", "INCLUDE .", "INCLUDE ..", "INCLUDE root.jst",
 }
 
